@@ -212,10 +212,15 @@ def run(ctx):
             gty = '&mut ' + b.local_ty(gen_local)
             for ai, a in enumerate(t['args']):
                 aty = a.get('ty', '')
-                # inside an inlined generic helper the generator has the helper's type parameter as its type
-                generic = re.match(r'^&mut [A-Z][A-Za-z0-9]*$', aty) is not None and b.locals[a['l']].get('inl') if 'l' in a else False
-                if aty == gty or generic:
-                    o = tr.origin(a)
+                if not aty.startswith('&mut ') or 'l' not in a:
+                    continue
+                o = tr.origin(a)
+                # a generator is recognised by its type, or (inside an inlined generic helper, where its type is the helper's
+                # type parameter) by where it comes from
+                from_ctor = o['o'] == 'call' and call_matches(o['term'], 'SeedableRng::seed_from_u64', 'SeedableRng::from_entropy',
+                                                              'SeedableRng::from_seed', 'SeedableRng::from_rng', 'rand::thread_rng',
+                                                              'rngs::thread::thread_rng')
+                if aty == gty or from_ctor:
                     n_rng += 1
                     rep.check(o.get('l') == gen_local, 'R4', 'rng-argument-is-the-seeded-generator:%s'
                               % ((t['func'].get('fn') or '?').rsplit('::', 1)[-1]), where(b, bi),
